@@ -6,7 +6,7 @@ PLAN = dict(
           "position-tracking reader; resume: one Decoder on a reader that fails once (error or io.EOF) inside an item head or string and then carries on: the call meeting the fault must fail, every later call that succeeds must return the value of the item at the reader's position and consume exactly it. Oracle = RFC 8949 head/length semantics recomputed by refcbor: success iff well-formed item of the "
           "requested major type, exact value, exact consumption. Non-trivial: the head parses (call), the encoder accepted the value "
           "(roundtrip), at least two successful calls (stream); distinct by fingerprint of the case."),
-    assumptions=TRUSTED + ["On a failed call the reader position is unspecified and not compared"],
+    assumptions=TRUSTED + ["a value returned by a decode call belongs to the caller (it may append to it), and the caller may reuse its input buffer once the calls have returned: held values are compared after both", "On a failed call the reader position is unspecified and not compared"],
     runs=[
         dict(name="exh", run="^(TestExhaustiveHeads|TestExhaustiveRoundTripBoundaries|TestExhaustiveCodePoints|TestCorpus)$"),
         dict(name="rt", run="^TestPropRoundTrip$", checks=(3000, 300000), shards=(1, 4)),
@@ -19,5 +19,5 @@ PLAN = dict(
                 "is an independent RFC 8949 head/length semantics. Exploration level: the enumerated classes are the ones where a head parser "
                 "can go wrong (width classes, reserved/indefinite info, truncation, 2^63 lengths, UTF-8)."),
     level_note=NOTE_BASE,
-    require=[("call", "expect-accept"), ("call", "expect-reject"), ("stream", "has-nonshortest-head"), ("resume", "decoded-after-error")],
+    require=[("call", "expect-accept"), ("call", "expect-reject"), ("stream", "has-nonshortest-head"), ("stream", "source:bytes.Buffer"), ("resume", "decoded-after-error")],
 )
